@@ -180,4 +180,38 @@ theorem pinned_rule_exports_wrong_branch :
     (exportGraph (fun _ => 1) eleven).map moduleTargets = some ["b.sn_branches.1.conv"] := by
   decide +kernel
 
+/-! ### "for every value of the selection coefficients": export reads the current alpha -/
+
+/-- forward passes (which re-sample `theta_alpha`), hard/soft switches and temperature updates
+never change which branches export selects: only a write of `alpha` can. -/
+theorem export_ignores_sampling_history (st : HistSt) (ops : List HistOp)
+    (h : ∀ op ∈ ops, op.isWrite = false) : exportWinners (runHist st ops) = exportWinners st := by
+  unfold exportWinners
+  rw [alphaOf_runHist ops st h]
+
+/-- whatever happened before (any state `st` reached by any history) and whatever sampling or
+option updates follow — in particular **no forward pass at all** — after `alpha` of combiner `c`
+has been overwritten with `a`, export selects `argmax a` for `c`. -/
+theorem export_follows_last_write (st : HistSt) (c : String) (a : List Rat) (ops : List HistOp)
+    (hc : c ∈ st.map (·.1)) (h : ∀ op ∈ ops, op.isWrite = false) :
+    exportWinners (runHist (histStep st (.setAlpha c a)) ops) c = argmax a := by
+  rw [export_ignores_sampling_history _ ops h]
+  unfold exportWinners winners
+  rw [assoc_alphaOf_write st c a hc]
+
+/-- a hard-selection block evaluated at alpha = (1,0), then loaded with alpha = (0,1) and exported
+without a forward pass in between -/
+def loadThenExport : List HistOp :=
+  [.setAlpha "b.sn_combiner" [1, 0], .forward false, .setAlpha "b.sn_combiner" [0, 1]]
+
+/-- on it, export (arg-max of the current alpha) selects branch 1, while the rule "with hard
+selection take the one-hot `theta_alpha` already holds" (seeded change c03_2) selects the stale
+branch 0 of the last forward pass. -/
+theorem stale_theta_rule_exports_wrong_branch :
+    exportWinners (runHist [("b.sn_combiner", ⟨[1/2, 1/2], some 0, true, false⟩)] loadThenExport)
+      "b.sn_combiner" = 1 ∧
+    exportWinnersStale (runHist [("b.sn_combiner", ⟨[1/2, 1/2], some 0, true, false⟩)] loadThenExport)
+      "b.sn_combiner" = 0 := by
+  decide +kernel
+
 end PlinioVerif.C03
